@@ -197,6 +197,26 @@ def install(I, B):
 
     reg("uf", uf)
 
+    def memstream(I, st):
+        import ast as _ast
+        from . import bytesmodel
+
+        cv = I._memstream_cls if hasattr(I, "_memstream_cls") else None
+        if cv is None:
+            cv = ClassVal(_ast.ClassDef(name="MemStream", bases=[], keywords=[], body=[], decorator_list=[]), None)
+            cv._members = {}
+            I._memstream_cls = cv
+        return st.alloc(ObjE(cv, {"__memstream__": bytesmodel.MemStream()}))
+
+    reg("memstream", memstream)
+
+    def blob(I, st, n):
+        from . import bytesmodel
+
+        return bytesmodel.BytesVal([bytesmodel.Part("raw", Opaque("blob"), n)])
+
+    reg("blob", blob)
+
     def to_real(I, st, x):
         x = as_arith(x)
         if is_z3(x) and z3.is_int(x):
